@@ -29,6 +29,7 @@ const MainName = "<main>"
 func CreateBytecodeCompiler(parent *BytecodeCompiler, checker types.Checker, loc *position.Location, errors *diagnostic.SyncDiagnosticList, additionalAbortChecks bool) *BytecodeCompiler {
 	compiler := NewBytecodeCompiler(loc.FilePath, topLevelBytecodeCompilerMode, loc, checker, newBytecodeGlobalData())
 	compiler.additionalAbortChecks = additionalAbortChecks
+	compiler.globalData.additionalAbortChecks = additionalAbortChecks
 	compiler.Errors = errors
 	compiler.parent = parent
 	return compiler
@@ -49,6 +50,7 @@ func CreateBreakpointCompiler(checker types.Checker, context *BytecodeBreakpoint
 func (c *BytecodeCompiler) CreateMainCompiler(checker types.Checker, loc *position.Location, errors *diagnostic.SyncDiagnosticList, output io.Writer, additionalAbortChecks bool) Compiler {
 	compiler := NewBytecodeCompiler(loc.FilePath, topLevelBytecodeCompilerMode, loc, checker, newBytecodeGlobalData())
 	compiler.additionalAbortChecks = additionalAbortChecks
+	compiler.globalData.additionalAbortChecks = additionalAbortChecks
 	compiler.predefinedLocals = c.maxLocalIndex + 1
 	compiler.scopes = c.scopes
 	compiler.lastLocalIndex = c.lastLocalIndex
@@ -248,6 +250,9 @@ func newBytecodeCall(methodName value.Symbol, bytecode *vm.BytecodeFunction, off
 
 type bytecodeGlobalData struct {
 	callsToOptimise *concurrent.Slice[*bytecodeCall]
+	// compile CHECK_ABORT instructions; shared by every compiler of the program
+	// so that method bodies, closures and namespace bodies get them as well
+	additionalAbortChecks bool
 }
 
 func newBytecodeGlobalData() *bytecodeGlobalData {
@@ -297,6 +302,8 @@ func NewBytecodeCompiler(name string, mode bytecodeCompilerMode, loc *position.L
 		mode:           mode,
 		checker:        checker,
 		globalData:     globalData,
+
+		additionalAbortChecks: globalData.additionalAbortChecks,
 		Errors:         diagnostic.NewSyncDiagnosticList(),
 	}
 	// reserve the first slot on the stack for `self`
@@ -2100,6 +2107,11 @@ func (c *BytecodeCompiler) compileContinueExpressionNode(node *ast.ContinueExpre
 		} else {
 			c.compileNode(node.Value, false)
 		}
+	}
+
+	if c.additionalAbortChecks {
+		// the loop's own check sits before its regular back-edge, which `continue` skips
+		c.emit(location.StartPos.Line, bytecode.CHECK_ABORT)
 	}
 
 	finallyCount := c.countFinallyInLoop(labelName)
